@@ -470,6 +470,18 @@ pub fn stream_cases() -> Vec<StreamCase> {
     // SIGINT, the other ignores it and is killed after the grace period
     v.push(StreamCase { stop_timeout: true, ..c("time-limit-exits-on-sigint", "trap 'exit 0' INT; printf a; touch ready; while :; do sleep 0.05; done", "a", "", false) });
     v.push(StreamCase { stop_timeout: true, ..c("time-limit-ignores-sigint", "trap '' INT; printf a; touch ready; while :; do sleep 0.05; done", "a", "", false) });
+    // the time limit strikes after the main process has exited and been reaped (no process left to
+    // signal) while a helper still holds the pipes and writes later
+    v.push(StreamCase {
+        stop_timeout: true,
+        ..c(
+            "time-limit-after-exit-helper-holds-pipe",
+            "printf a; (while kill -0 $$ 2>/dev/null; do sleep 0.02; done; touch ready; sleep 0.6; printf late; printf elate >&2) & exit 0",
+            "alate",
+            "elate",
+            false,
+        )
+    });
     v
 }
 
